@@ -120,7 +120,11 @@ class Collector:
                                  for o in src for v in o.via)
                 via_sweep = any(v[0] == "call" and re.search(r"HashMap::<K, V, S, A>::(values_mut|iter_mut|drain|values|iter)$", v[1])
                                 for o in src for v in o.via)
-                if via_remove and self.from_role(src, "commit"):
+                rem_blocks = {v[2] for o in src for v in o.via
+                              if v[0] == "call" and re.search(r"HashMap::<K, V, S, A>::remove$", v[1])}
+                key_commit = any(len(fn.term(rb)["args"]) > 1 and
+                                 self.from_role(self.prov.of_operand(fn, fn.term(rb)["args"][1]), "commit") for rb in rem_blocks)
+                if via_remove and key_commit:
                     kind = "commit"
                 elif via_sweep:
                     kind = "sweep"
